@@ -347,6 +347,18 @@ def check_comparison(prog, chk, body, field, variant, bb, idx, stmt, limit_tmp):
             # is set to 0 when the loop starts
             cpl_ = nrm_
             resets = [1 for _b, _i, s_ in body.all_stmts() if "lhs" in s_ and D_._norm(body, P(s_["lhs"])) == cpl_ and s_["rv"].get("k") == "use" and const_int(s_["rv"]["op"]) == 0]
+            # the loop's body processes nested content: can this very function be entered again while the loop runs?
+            lp_ = R.loop_containing(body, bb)
+            reentrant = False
+            if lp_ is not None:
+                for (cb_, ct_, cc_) in body.call_sites(lambda c: c.local):
+                    if cb_ in lp_[1]:
+                        tg_ = prog.targets_of_callee(cc_)
+                        if tg_ and body.id in prog.reachable_from(tg_):
+                            reentrant = True
+            if resets and reentrant:
+                chk.bad("A7.pred", key + ":counter", where, f"the count compared with {field} lives in `{D_pname(body, cpl_)}`, an object shared with the nested content the loop's body processes, and is reset where a loop starts: a loop inside the loop sets the enclosing loop's count back to 0 (and leaves its own count behind), so an outer loop beyond the limit is accepted and one within it can be refused - the count must be the loop's own (a local), or be saved and restored around the body")
+                return
             if not resets:
                 chk.bad("A7.pred", key + ":counter", where, f"the count compared with {field} lives in `{D_pname(body, cpl_)}`, an object handed in by the caller, and is never reset to 0 here: it counts the passes of every loop of the document together, so a loop is refused although it stays within the limit itself (and a loop after a long one is refused at once)")
                 return
